@@ -64,7 +64,15 @@ pub fn gen(prop: &str, scen: &str, _k: u64, seed: u64, tier: &str) -> Case {
             _ => {}
         }
     }
-    let len = *rng.pick(&[0usize, 1, 5, 100, 5000, 70000, if big { 700_000 } else { 20000 }]);
+    let mut len = *rng.pick(&[0usize, 1, 5, 100, 5000, 70000, if big { 700_000 } else { 20000 }]);
+    if rng.pct(4) && case.opt.dict <= 65536 {
+        // long enough for the encoder's window to move (boundary values of lc/lp/pb matter for
+        // positions, and positions only change their low bits when the window moves)
+        len = rng.urange(280_000, 460_000);
+        if case.opt.mode == 1 && case.opt.nice > 64 {
+            case.opt.depth = 4;
+        }
+    }
     case.input = InputSpec::new(*rng.pick(&["text", "random", "zero", "mixed"]), len, rng.next_u64());
     case.input.p1 = 300;
     case.wops = if rng.pct(50) { vec![] } else { vec![WOp::W(len / 3), WOp::F, WOp::W(len / 2)] };
